@@ -391,6 +391,64 @@ fn run(ctx: &mut Ctx) {
             }
         }
     }
+    // a price of exactly zero is a price: `P d AAA 0 BBB` makes 1 AAA worth 0 BBB from d on (the reverse direction has no
+    // finite rate and is not judged). With and without an older non-zero price for the pair from the ledger or the database.
+    {
+        let older: [(&str, &str, Vec<GFact>); 4] = [
+            ("", "", vec![]),
+            ("2024/01/10 f\n  P  1 AAA @ 2 BBB\n  Q  -2 BBB\n\n", "", vec![GFact { date: 10, x: 0, y: 1, rate: Q::int(2), db: false }]),
+            ("", "P 2024/01/10 AAA 2 BBB\n", vec![GFact { date: 10, x: 0, y: 1, rate: Q::int(2), db: true }]),
+            ("2024/01/30 f\n  P  1 AAA @ 3 BBB\n  Q  -3 BBB\n\n", "", vec![GFact { date: 30, x: 0, y: 1, rate: Q::int(3), db: false }]),
+        ];
+        for (ltext, dbolder, ofacts) in older.iter() {
+            for zero_first in [false, true] {
+                if !ctx.next_is_mine() {
+                    ctx.skip_cases(1);
+                    continue;
+                }
+                let text = format!("2020/01/01 declare\n  Z  0 AAA\n  Z  0 BBB\n\n{}", ltext);
+                let zero_line = "P 2024/01/20 AAA 0 BBB\n";
+                let db = if zero_first { format!("{}{}", zero_line, dbolder) } else { format!("{}{}", dbolder, zero_line) };
+                let mut facts = ofacts.clone();
+                facts.push(GFact { date: 20, x: 0, y: 1, rate: Q::ZERO, db: true });
+                let mut conv = 0u64;
+                ctx.case(
+                    || format!("{}-- price db --\n{}", text, db),
+                    || {
+                        std::fs::write(&dbpath, &db).expect("write price db");
+                        oka::with_ledger(&[(oka::ROOT, text.as_str())], oka::ROOT, Some(&dbpath), |r| {
+                            let (l, c) = match r {
+                                Ok(x) => x,
+                                Err(e) => return Outcome::violation(format!("fact-ledger-rejected/{}", e.variant), format!("{}\n{:?}", e.rendered, e.chain)),
+                            };
+                            for qd in QD {
+                                conv += 1;
+                                // forward direction only: 2 AAA in BBB
+                                let exp = refprice_q(2, &facts, 0, 1, qd);
+                                let got = l.eval(c, "2 AAA", &EvalContext { date: oka::date(2024, 1, qd), exchange: Some("BBB".to_string()) });
+                                let q = format!("2 AAA -> BBB as of 2024/01/{:02}", qd);
+                                match (&exp, &got) {
+                                    (None, Err(_)) => {}
+                                    (None, Ok(a)) => return Outcome::violation("zero-price/converted-without-any-chain", format!("{}: got {}", q, a.as_inline_display())),
+                                    (Some(acc), Err(e)) => return Outcome::violation("zero-price/conversion-failed-although-a-price-exists", format!("{}: expected {:?}, got error {}", q, acc.iter().map(|r| r.mul(Q::int(2)).to_string()).collect::<Vec<_>>(), e)),
+                                    (Some(acc), Ok(a)) => {
+                                        let m = oka::amount_to_qmap(a);
+                                        let v = m.get("BBB").copied().unwrap_or(Q::ZERO);
+                                        if !acc.iter().any(|r| r.mul(Q::int(2)) == v) || m.iter().any(|(k, x)| k != "BBB" && !x.is_zero()) {
+                                            return Outcome::violation("zero-price/wrong-rate", format!("{}: expected {} BBB got {}", q, acc.iter().map(|r| r.mul(Q::int(2)).to_string()).collect::<Vec<_>>().join(" or "), a.as_inline_display()));
+                                        }
+                                    }
+                                }
+                            }
+                            Outcome::pass("zero-price/most-recent-price-used")
+                        })
+                    },
+                );
+                ctx.count("transitions", conv);
+                ctx.count("validated", conv);
+            }
+        }
+    }
     if ctx.tier == Tier::Thorough {
         // sets of 4 facts over the 3-commodity alphabet restricted to cost/db sources
         let b: Vec<Fact> = a3.iter().filter(|f| matches!(f.src, Src::Cost | Src::Db) && f.x < f.y).cloned().collect();
